@@ -237,6 +237,22 @@ func c13ProveLen(c *core.Ctx, n *c13Node, s *c13IdxSite) (bool, *flow.State, int
 		}
 		return true
 	})
+	names = c13ParamVocab(f, names)
+	nilKeys := c13ParamVocab(f, []string{nilKey})
+	bound := func(st *flow.State) int64 {
+		got := always
+		for _, nk := range nilKeys {
+			if nonNil > got && st.Is(nk, flow.False) {
+				got = nonNil
+			}
+		}
+		for _, nm := range names {
+			if b := c13LenLowerBound(st, nm); b > got {
+				got = b
+			}
+		}
+		return got
+	}
 	states, seen := c13StatesAt(c, f, s.ix, flow.Config{
 		Track: func(k string) bool {
 			for _, nm := range names {
@@ -247,21 +263,12 @@ func c13ProveLen(c *core.Ctx, n *c13Node, s *c13IdxSite) (bool, *flow.State, int
 			return k == nilKey || strings.HasPrefix(k, "v:")
 		},
 		Pure: c13PureFor(f, c13BaseObj(f, s.ix.X)),
-	})
+	}, func(st *flow.State) bool { return bound(st) >= need })
 	if !seen {
 		return false, nil, always
 	}
 	for _, st := range states {
-		got := always
-		if nonNil > got && st.Is(nilKey, flow.False) {
-			got = nonNil
-		}
-		for _, nm := range names {
-			if b := c13LenLowerBound(st, nm); b > got {
-				got = b
-			}
-		}
-		if got < need {
+		if got := bound(st); got < need {
 			return false, st, got
 		}
 	}
